@@ -293,6 +293,88 @@ def r4_relay_buffers(chk):
         r.require(cfg, 4, "relay buffers")
 
 
+def _construction_site(prog, body):
+    pb = prog.bodies.get(body.rec.get("parent"))
+    if pb is None:
+        return None, None
+    for blk, i, st in pb.aggregates():
+        if st["r"].get("def") == body.path:
+            return pb, blk
+    return pb, None
+
+
+def r5_timed_wait_in_loop_is_absolute(chk):
+    r = chk.rule("R5", "a RCVTIMEO wait inside a retry loop is bounded by one absolute deadline", "T4 loop-invariance of the time bound",
+                 "where a receive path waits in a loop (parking, re-checking, racing wake-ups) the RCVTIMEO bound is `sleep_until/timeout_at(deadline)` with the deadline fixed before the loop, "
+                 "or a remaining time recomputed from such a deadline - never `sleep(d)/timeout(d, ..)` with the option's duration, which every iteration re-arms "
+                 "(recv() would then give up only RCVTIMEO after the last unrelated wake-up)")
+    for cfg, prog in chk.configs():
+        n = 0
+        observed = []
+        for b in prog.bodies.values():
+            if "::tests" in b.path or "_tests::" in b.path or not re.search(r"core/src/socket/", b.file):
+                continue
+            for c in b.calls:
+                if c.callee not in ("tokio::time::sleep", "tokio::time::timeout", "tokio::time::sleep_until", "tokio::time::timeout_at"):
+                    continue
+                # the loop this wait sits in: its own body's, or the loop in which the enclosing async block / closure is built
+                x, blk, hops = b, c.blk, []
+                loop_body, loop_blk = (b, c.blk) if b.loops_containing(c.blk) else (None, None)
+                cur = b
+                while loop_body is None:
+                    pb, pblk = _construction_site(prog, cur)
+                    if pb is None or pblk is None:
+                        break
+                    hops.append(cur)
+                    if pb.loops_containing(pblk):
+                        loop_body, loop_blk = pb, pblk
+                        break
+                    cur = pb
+                if loop_body is None:
+                    continue
+                # where does the time operand come from?  follow captures up to the loop's body
+                prov = b.provenance(c.args[0])
+                o_body, o = b, c.args[0]
+                root = re.split(r"[@.\[(]", prov)[0]
+                chain = [b] + hops[1:] if hops else [b]
+                origin_in_loop = None
+                lb = loop_body
+                h, blocks = lb.loops_containing(loop_blk)[0]
+                if lb is b:
+                    org = b.value_origin(c.args[0])
+                    if org[0] == "call":
+                        origin_in_loop = org[1].blk in blocks
+                    elif org[0] == "place":
+                        origin_in_loop = any(d in blocks for d in b.def_blocks(org[1]["l"])) if b.def_blocks(org[1]["l"]) else False
+                    else:
+                        origin_in_loop = False
+                    src_text = b.provenance_all(c.args[0])
+                else:
+                    # captured variable `root` of the nested body: find the local of that name in the loop's body
+                    names, _ = lb.names
+                    ls = [l for l, nm in names.items() if nm == root]
+                    origin_in_loop = any(any(d in blocks for d in lb.def_blocks(l)) for l in ls) if ls else None
+                    src_text = prov + " " + " ".join(lb.provenance_all({"c": "copy", "p": {"l": l, "pr": [], "s": "", "ty": ""}}) for l in ls)
+                is_rcv = "rcvtimeo" in src_text.lower()
+                is_snd = "sndtimeo" in src_text.lower()
+                relative = c.name in ("sleep", "timeout")
+                key = "%s|%s in a retry loop" % (short(b.path), c.name)
+                if not is_rcv:
+                    if is_snd and relative and origin_in_loop is False:
+                        observed.append("%s (%s)" % (short(b.path), c.name))
+                    continue
+                n += 1
+                if relative and origin_in_loop is False:
+                    r.bad(cfg, key, where(b, c.blk), "`%s(d)` with the RCVTIMEO duration (fixed outside the loop at %s) sits inside a retry loop: every pass that is not a delivery (a peer finishing its handshake, a pipe detaching, a parked batch) re-arms the full interval, so a timed recv() returns Timeout only RCVTIMEO after the last such event instead of RCVTIMEO after the call" % (c.name, short(lb.path)))
+                elif not relative and origin_in_loop is True:
+                    r.bad(cfg, key, where(b, c.blk), "the deadline handed to `%s` is recomputed inside the loop: it moves with every pass" % c.name)
+                else:
+                    r.ok(cfg, key, where(b, c.blk), "%s with %s" % (c.name, "a deadline fixed before the loop" if not relative else "a remaining time recomputed per pass"))
+        if observed:
+            r.note("%s: SNDTIMEO-derived relative waits inside loops (not judged: whether a pass without progress can repeat is not decided): %s" % (cfg, ", ".join(sorted(set(observed)))))
+        r.require(cfg, 1, "RCVTIMEO waits inside retry loops")
+
+
 def run(chk):
     chk.undecided = ["elapsed-time bounds of send/recv", "the numeric buffering bound per connection"]
     r1_minus_one_waits(chk)
@@ -301,3 +383,4 @@ def run(chk):
     r2_recv_mapping(chk)
     r3_bounded_channels(chk)
     r4_relay_buffers(chk)
+    r5_timed_wait_in_loop_is_absolute(chk)
